@@ -133,7 +133,8 @@ def check_case(case, rec):
 
 def check_joins_on(L, R, Lc, Rc, by, joins, rec, case=None):
     case = case or {"joins": joins}
-    by_arg = [tuple(b) if isinstance(b, list) else b for b in by]
+    pair = tuple if case.get("pair_form", "tuple") == "tuple" else list
+    by_arg = [pair(b) if isinstance(b, list) else b for b in by]
     lk = [b if isinstance(b, str) else b[0] for b in by]
     rk = [b if isinstance(b, str) else b[1] for b in by]
     lb, rb = V.frame_key(L), V.frame_key(R)
@@ -156,6 +157,8 @@ def check_joins_on(L, R, Lc, Rc, by, joins, rec, case=None):
         one = {"L": Lc, "R": Rc, "by": by, "joins": [join]}
         if case.get("grouped"):
             one["grouped"] = True
+        if case.get("pair_form"):
+            one["pair_form"] = case["pair_form"]
         try:
             out = getattr(L, join)(R, *by_arg)
         except Exception as e:
@@ -309,6 +312,8 @@ def run_shard(shard, rec):
                     check_case(case, rec)
                     if m <= 2 and len(rt) <= 2:
                         check_case(dict(case, grouped=True, poke=False), rec)
+                        if shard["renamed"]:
+                            check_case(dict(case, pair_form="list", poke=False), rec)
     else:
         k1, k2 = shard["kinds"]
         a1, a2 = V.alphabet(k1, "key"), V.alphabet(k2, "key")
